@@ -289,6 +289,32 @@ KERNELS += [
                + [(r"on_disk_data_type\.size_in_bytes\(\)", "(unsigned long)self->elsize", 1), (r"(?<![\w>.])storage_order\b", "self->storage_order", 6)]),
 ]
 
+# ---- SegmentByView <-> SegmentBySinogram conversion constructors (used by set_segment / get_segment_* for "the other" storage order) ----
+HARNESS_C = os.path.join(VERIF, "harness", "c02c.c")
+SBS, SBV = "src/buildblock/SegmentBySinogram.cxx", "src/buildblock/SegmentByView.cxx"
+SEGACC2 = [(r"(?:this->)?get_(min|max)_(axial_pos|view)_num\(\)", r"self->\1_\2", None)]
+KERNELS_CONV = [
+    dict(name="K_sbs_get_viewgram", file=SBS, cxx_name="SegmentBySinogram<elemT>::get_viewgram", func=r"SegmentBySinogram<elemT>::get_viewgram\(int view_num\) const",
+         c_header="void K_sbs_get_viewgram(const struct SEG* self, int view_num)", loops=1,
+         rules=[(r"Array<2, elemT> pre_view\(IndexRange2D\(\s*this->get_min_axial_pos_num\(\), get_max_axial_pos_num\(\), get_min_tangential_pos_num\(\), get_max_tangential_pos_num\(\)\)\);",
+                 "PRE_ALLOC(self->min_axial_pos, self->max_axial_pos);", 1),
+                (r"pre_view\[r\] = Array<3, elemT>::operator\[\]\(r\)\[view_num\];", "PRE_SET(r, SRC_ROW(self, r, view_num));", 1),
+                (r"return Viewgram<elemT>\(\s*pre_view,[^;]*;", "OBJ_MAKE(view_num); return;", 1)] + SEGACC2),
+    dict(name="K_sbv_get_sinogram", file=SBV, cxx_name="SegmentByView<elemT>::get_sinogram", func=r"SegmentByView<elemT>::get_sinogram\(int axial_pos_num\) const",
+         c_header="void K_sbv_get_sinogram(const struct SEG* self, int axial_pos_num)", loops=1,
+         rules=[(r"Array<2, elemT> pre_sino\(\s*IndexRange2D\(this->get_min_view_num\(\), get_max_view_num\(\), get_min_tangential_pos_num\(\), get_max_tangential_pos_num\(\)\)\);",
+                 "PRE_ALLOC(self->min_view, self->max_view);", 1),
+                (r"pre_sino\[v\] = Array<3, elemT>::operator\[\]\(v\)\[axial_pos_num\];", "PRE_SET(v, SRC_ROW(self, axial_pos_num, v));", 1),
+                (r"return Sinogram<elemT>\(pre_sino,[^;]*;", "OBJ_MAKE(axial_pos_num); return;", 1)] + SEGACC2),
+    dict(name="K_sbv_ctor_loop", file=SBV, cxx_name="SegmentByView<elemT>::SegmentByView(const SegmentBySinogram<elemT>&): the copying loop",
+         func=r"SegmentByView<elemT>::SegmentByView\(const SegmentBySinogram<elemT>& s_s\)", c_header="void K_sbv_ctor_loop(const struct SEG* self)", loops=1,
+         rules=[(r"set_viewgram\(s_s\.get_viewgram\(v\)\);", "K_dst_set_object(K_src_get_object(v));", 1)] + SEGACC2),
+    dict(name="K_sbs_ctor_loop", file=SBS, cxx_name="SegmentBySinogram<elemT>::SegmentBySinogram(const SegmentByView<elemT>&): the copying loop",
+         func=r"SegmentBySinogram<elemT>::SegmentBySinogram\(const SegmentByView<elemT>& s_v\)", c_header="void K_sbs_ctor_loop(const struct SEG* self)", loops=1,
+         rules=[(r"set_sinogram\(s_v\.get_sinogram\(r\)\);", "K_dst_set_object(K_src_get_object(r));", 1)] + SEGACC2),
+]
+KERNELS += KERNELS_CONV
+
 CHK = ["--signed-overflow-check", "--div-by-zero-check", "--bounds-check", "--pointer-check", "--conversion-check"]
 VT = {"quick": [(1, 2), (3, 5), (4, 4), (8, 16)],
       "thorough": [(v, t) for v in range(1, 9) for t in range(1, 9)] + [(8, 16), (16, 8), (12, 20), (32, 64), (96, 128)]}
@@ -326,6 +352,11 @@ def jobs(tier, gen_dir):
             d2["C02_E"] = E
             J("K_pds_get_offset/V=%d/T=%d/E=%d" % (V, T, E), "h_K_pds_get_offset", enforce="K_pds_get_offset", repl=["K_find_int"], lc=True, defs=d2,
               kernels=["K_pds_get_offset"], params={"num_views": V, "num_tangential_poss": T, "bytes_per_element": E}, shards=SH)
+    for k in ("K_sbs_get_viewgram", "K_sbv_get_sinogram", "K_sbv_ctor_loop", "K_sbs_ctor_loop"):
+        out.append(Job("c02/" + k, HARNESS_C, "h_" + k, enforce=k, loop_contracts=True, kernels=[k], flags=CHK, no_base_flags=True, min_obligations=3, timeout=300, backend="kissat",
+                       object_bits=10))
+    out.append(Job("c02/canary/K_sbs_get_viewgram", HARNESS_C, "h_K_sbs_get_viewgram", enforce="K_sbs_get_viewgram", loop_contracts=True, kernels=["K_sbs_get_viewgram"], kind="canary",
+                   defines={"CANARY_K_sbs_get_viewgram": None}, expect_fail=r"K_sbs_get_viewgram\.postcondition", no_base_flags=True, timeout=300, object_bits=10, backend="kissat"))
     for k in ("K_pd_set_segment_by_sinogram", "K_pd_set_segment_by_view", "K_pd_get_segment_by_sinogram", "K_pd_get_segment_by_view", "K_pd_set_related_viewgrams",
               "K_pd_fill_value", "K_pd_fill_from"):
         J(k, "h_" + k, enforce=k, lc=True, kernels=[k])
@@ -395,7 +426,8 @@ TRUSTED += [
     "stream projection for the ProjDataFromStream write kernels: checked_seekp sets the put position or throws, write_data writes its block at the put position, "
     "may fail and may change 'scale', sino_stream->flush() makes everything written so far visible (ghosts g_seek, g_dirty)",
     "try/catch(...) rewritten to a forward goto taken when a call inside the try block reported an error (counted extraction rules)",
-    "SegmentByView(SegmentBySinogram) / SegmentBySinogram(SegmentByView) conversion constructors keep the values (set_segment for the other storage order)",
+    "SegmentByView(SegmentBySinogram) / SegmentBySinogram(SegmentByView): rows are copied [ax][view] <-> [view][ax] (kernels K_sbs_get_viewgram, K_sbv_get_sinogram and the two "
+    "constructor loops); the assignment of a whole 2D array (SegmentByView::set_viewgram, SegmentBySinogram::set_sinogram: one statement) copies it (Array::operator=, C11)",
     "Viewgram / Sinogram objects passed to set_* carry index values inside the ranges of the projection data (established by their constructors)",
 ]
 
